@@ -17,7 +17,9 @@
   Nested stores (an entry whose content starts with "NVAR" and parses as a store) are modelled
   functionally: the nested store of an entry is re-derived from the entry's content bytes
   (`nestedOf`) wherever the Go code follows the `NVarStore` pointer it created at parse time; the
-  recursion into nested stores takes a fuel argument (`asmStore`, `compact`).
+  recursion into nested stores takes a fuel argument (`asmStore`, `compact`), proved never
+  exhausted (FuelNested.lean).  The theorems of Props/C10.lean cover nested stores to any depth
+  (recursive grammar: SpecNested.lean).
 
   Go panics that remain reachable on hostile stores are the error value `Err.panic`.
 -/
